@@ -42,6 +42,8 @@ def run(prog, rep):
     rep.rule('R4', 'service-port peers disconnected before graph-level removal', floor=3)
     rep.rule('R5', 'unpeer removes ports only after establishing that the two services peer (five-element path between ServicePorts)', floor=2)
     check_unpeer_shape(prog, rep, 'R5')
+    rep.rule('R6', 'disconnect_interface removes only a port that belongs to the service it is called on', floor=1)
+    check_disconnect_ownership(prog, rep, 'R6')
 
     # ---- R1 ----
     check_cache_after_removal(prog, rep, 'R1')
@@ -424,6 +426,44 @@ def check_unpeer_shape(prog, rep, rule):
                           'services that do not peer but are both connected to one node (or both peer with a third service) these are the '
                           'ports that connect them to that node / service: the ports are deleted with their links and the ports facing them '
                           'are left without a peer, instead of "do not peer" being raised')
+
+
+def check_disconnect_ownership(prog, rep, rule):
+    """NetworkService.disconnect_interface removes a port only after it has established that the port is one of THIS service's:
+    the removal is guarded by a test that relates the port to ``self.node_id`` (membership in the service's own connection
+    points, or its parent being this service)."""
+    uns = prog.cls('fim.user.network_service:NetworkService')
+    fn0 = uns.methods.get('disconnect_interface')
+    if fn0 is None:
+        raise AnalysisError('NetworkService.disconnect_interface vanished')
+    fn = inline(prog, uns, fn0)
+    env = local_env(fn)
+    rems = [c for c in walk_no_nested(fn) if isinstance(c, ast.Call) and call_name(c) == 'remove_cp_and_links']
+    if not rems:
+        raise AnalysisError('NetworkService.disconnect_interface: port removal not found')
+    for r_ in rems:
+        arg = kwarg(r_, 'node_id') or (r_.args[0] if r_.args else None)
+        roots = {x.id for x in ast.walk(arg) if isinstance(x, ast.Name)} if arg is not None else set()
+        _, conds = _enclosing(r_, fn)
+        owned = False
+        for c_ in conds:
+            for cj in conjuncts(canon(c_)):
+                names = {x.id for x in ast.walk(cj) if isinstance(x, ast.Name)}
+                txt = ctext(expand(cj, env))
+                if (names & roots or any(ctext(expand(ast.Name(id=n_, ctx=ast.Load()), env)) in txt for n_ in roots)) and 'self.node_id' in txt:
+                    owned = True
+        # the candidates may also have been filtered by ownership before one is picked
+        if not owned:
+            for n_ in roots:
+                e_ = env.get(n_)
+                if e_ is not None and 'self.node_id' in ctext(expand(e_, env)):
+                    owned = True
+        rep.instance(rule, f'NetworkService.disconnect_interface: {norm(r_, 70)} only for a port of this service: {owned}')
+        if not owned:
+            rep.violation(rule, loc(uns.module, r_), 'NetworkService.disconnect_interface', f'{norm(r_, 70)} whatever service the port belongs to',
+                          'disconnect_interface removes the peer of the given interface without checking that this peer is a port of THIS service: '
+                          'called on another service (or for an interface joined to another node by a plain link) it deletes that other '
+                          "service's port and link - or the other node's interface - and leaves this service untouched")
 
 
 def check_cp_remover(prog, rep, rule):
